@@ -44,6 +44,12 @@ def gen(rng, tier):
         if i % 8 == 0 and jsongen.nest(s) < 32:
             meta = {"kind": kind + "-verbose", "stx": s, "text": t, "flags": 0, "entry": "V"}
             out.append((line(32, 0, ["V" + hx(t), "W" + hx(t)]), meta))
+        # the file-descriptor entry point on a descriptor that delivers the text in slices (socket/pipe-like
+        # short reads before the end of the data) and on a regular file: the value is that of the whole text
+        if i % 7 == 2 and jsongen.nest(s) < 32 and 0 < len(t) <= 3500:
+            cuts = jsongen.partitions(rng, len(t), rng.choice([2, 2, 3, 5])) if len(t) >= 2 else []
+            meta = {"kind": kind + "-fd-sliced", "stx": s, "text": t, "flags": 0, "entry": "E"}
+            out.append((line(32, 0, ["E-1," + hx(t) + "".join(",%d" % c for c in cuts), "D-1," + hx(t)]), meta))
         # the same under a caller's comma-decimal locale, process-wide (setlocale) or for the calling thread only
         # (uselocale): the value a valid text denotes does not depend on it (all four entry points)
         if i % 6 == 1 and jsongen.nest(s) < 32:
@@ -116,6 +122,11 @@ def oracle(line_, meta, impl):
         # "success <len> <dump>" -> "success <dump> | parse <dump or - for null>"
         dump = want.split(" ", 2)[2]
         want = "success %s | parse %s" % (dump, "-" if dump == "n" else dump)
+    if meta.get("entry") == "E":
+        if kind != "accept":
+            return None
+        dump = want.split(" ", 2)[2]
+        want = "fd %s | fd %s" % (("-" if dump == "n" else dump,) * 2)
     if meta.get("entry") == "L" and kind == "accept":
         dump = want.split(" ", 2)[2]
         want = "locale | %s | success %s | parse %s | locale" % (want, dump, "-" if dump == "n" else dump)
